@@ -3,7 +3,7 @@
    extracted inductive types (converted by ocaml/scan/driver.ml). *)
 From Coq Require Import List ZArith Extraction ExtrOcamlBasic.
 From LMBase Require Import Res ListX IEEE.
-From LMScan Require Import ScanModel ScanConcrete ScanCheck ScanShape GenScan ShapeConcrete ScanSwitch.
+From LMScan Require Import ScanModel ScanConcrete ScanCheck ScanShape GenScan ShapeConcrete ScanSwitch ScanWord WordSource ScanCheck2.
 
 Definition x_of_bits := F32.of_bits.
 Definition x_to_bits := F32.to_bits.
@@ -18,4 +18,8 @@ Extraction "scan_model.ml"
   (* the scanner parameterised by the skeleton / constants read from scan.rs (translate/scan_skel.py) *)
   ce_pcollect ce_ptake ce_ptake_max gen_default_block_size gen_default_threshold_bits gen_shape
   (* setters called between calls of next() *)
-  ce_switch_collect ce_switch_max.
+  ce_switch_collect ce_switch_max
+  (* the same with usize arithmetic explicit (checked / wrapping / saturating add), block sizes as N *)
+  ce_wswitch_collect ce_wswitch_max ce_wtake n_of_digits gen_ovf gen_row_add_saturating
+  (* extracted judges: take(k), the precondition gate of the panic verdicts *)
+  check_take pre_ok n_pos check_sw check_swmax same_answer.
